@@ -14,7 +14,9 @@ Findings visible in this file (the model follows the code):
   (`equation` / `code` / `name` come back as NaN), `symbols_roundtrip_raises_at_witness` (a list whose `lags` are
   all missing makes the decoder raise).  `symbols_roundtrip_partial` gives the exact guard, `symbols_roundtrip_fixed`
   the statement for the candidate patch.
-* `linker_tables` needs the guard "the linker's name is not a submodel key": `linker_tables_false_at_witness`.
+* `linker_tables` needs the guard "the linker's name is not a submodel key": `linker_tables_false_at_witness`
+  (a dict cannot hold two tables under one key, so this is a limit of the interface rather than a defect of the
+  code; the oracle does not report it, the correspondence check still compares it).
 -/
 set_option linter.unusedSimpArgs false
 set_option linter.unusedVariables false
@@ -215,8 +217,8 @@ theorem linker_tables_lookup (name : K) (l : Store L α) (subs : List (K × Stor
         · simp [dictGet, e] at hm ⊢; exact ih hm
     rw [this]
 
-/-- FINDING (negation of the unguarded statement at a witness): a submodel keyed like the linker replaces the
-    linker's own table — two tables for two submodels plus a linker, and the one under the linker's name is the
+/-- The guard of `linker_tables` is necessary (negation of the unguarded statement at a witness): a submodel keyed
+    like the linker replaces the linker's own table — two tables for two submodels plus a linker, and the one under the linker's name is the
     submodel's. -/
 theorem linker_tables_false_at_witness :
     ∃ (name : String) (l : Store Nat Nat) (subs : List (String × Store Nat Nat)),
